@@ -1,8 +1,8 @@
 """C19: command-line contract -- validation, precedence and option equivalences."""
 import vlib
 
-COQ_DEPS = ["lib/Str.v", "gen/G_cli_consts.v", "model/CliModel.v"]
-MODEL_DEPS = COQ_DEPS + ["model/DriverCli.v", "model/Driver.v", "model/Extract.v"]
+COQ_DEPS = ["lib/Str.v", "gen/G_cli_consts.v", "model/CliModel.v", "lib/PyLib.v", "gen/G_fn_cli.v", "refine/RefCli.v"]
+MODEL_DEPS = ["lib/Str.v", "gen/G_cli_consts.v", "model/CliModel.v"] + ["model/DriverCli.v", "model/Driver.v", "model/Extract.v"]
 TRUSTED_BASE = [
     "Coq 8.16.1 kernel; vm_compute for the facts about generated constants",
     "axioms: none",
